@@ -81,11 +81,21 @@ func mkPlan(kind string, variant int, blocks int64, tier string, r *rand.Rand) p
 	switch kind {
 	case "ttl":
 		// equal-ish small stakes (nobody protected); expiry boundaries of the 2000-block lifetime
-		cl := classesFor(r, 7, clsPlain, clsPlain, cls2cMid, clsZero)
+		// v0..v2: one keep-alive whose expiry falls exactly on a check (h0 % 10 == 0), one block after a
+		// check (1) and one block before (9), on 0x2c-free addresses; the rest is drawn
+		cl := append([]string{pick(r, clsPlain, clsZero), clsPlain, pick(r, clsPlain, clsNearMiss)},
+			classesFor(r, 4, cls2cMid, pick(r, clsPlain, clsZero, cls2cEnd, cls2cStart))...)
 		pols := []string{polOnce, polOnce, polOnce, polRenew, polRenew, polSilent, polOnce}
+		fixed := []int64{0, 1, 9}
 		for i := 0; i < 7; i++ {
 			v := add(cl[i], pols[i], (10+int64(r.Intn(5)))*mu+jit())
 			v.H0 = ttlH0(r, 2+int64(r.Intn(150)))
+			if i < len(fixed) {
+				v.H0 = v.H0 - v.H0%10 + fixed[i]
+				if v.H0 < 2 {
+					v.H0 += 10
+				}
+			}
 			v.Every = pick(r, int64(1990), 1999, 2000, 2000, 2001, 2005, 2010, 700)
 			v.Res = pick(r, -1, 0, 9, 1)
 			v.Jump = pick(r, 100, 100, 50)
